@@ -92,3 +92,16 @@ def parse_outcome(eng, text):
     except BaseException as e:  # anything else is itself noteworthy (C03)
         return ('exception', type(e).__name__, str(e)[:200])
     return ('tree', canon_tree(st.expression))
+
+
+def function_names(root):
+    """names of all functions a parsed statement dispatches by itself (operators included)"""
+    out = set()
+    stack = [unwrap(root)]
+    while stack:
+        n = stack.pop()
+        if isinstance(n, yexpr.Function):
+            out.add(n.name)
+        for c in children(n):
+            stack.append(unwrap(c))
+    return out
